@@ -57,6 +57,7 @@ def replay(lentil, rec, fields, ctx):
     if rec.get('kind', 'ang') == 'ang':
         import copy as _copy
         elem = _copy.copy(ang_of([0, 0]))
+        elem.x, elem.y = np.array(elem.x, dtype=float), np.array(elem.y, dtype=float)      # angles held in (0-d) arrays
     else:
         tr0, di0 = disp_coef([0, 0])
         elem = lentil.DispersiveTilt(trace=tr0, dispersion=di0)
@@ -64,7 +65,11 @@ def replay(lentil, rec, fields, ctx):
     def steer(k, inplace):
         if rec.get('kind', 'ang') == 'ang':
             t = ang_of(k)
-            elem.x, elem.y = t.x, t.y
+            if inplace:
+                elem.x[...] = t.x
+                elem.y[...] = t.y
+            else:
+                elem.x, elem.y = np.array(t.x, dtype=float), np.array(t.y, dtype=float)
         else:
             tr, di = disp_coef(k)
             if inplace:
